@@ -10,7 +10,7 @@ META = {
                  'package lists, the index model tied to the real packageindex by a correspondence stream. Testing part (in support of the tie, not a proof): a harvest loop pushes '
                  'every package the built-in filesystem extractors produce from their own fixtures through ToPURL, Ecosystem, purl.FromString∘String twice, packageindex, '
                  'proto.ScanResultToProto, converter.ToSPDX23, converter.ToCDX under recover and compares the preserved fields, also with percent-encoding-needing names/versions',
-    'design_ref': 'DESIGN.md §5 C14, §7, Appendix A.30',
+    'design_ref': 'DESIGN.md §4 (section of C14), §5 (defects), §7 (seeded changes)',
     'text': 'translator/cmd/purldump re-reads purl/purl.go (type constants, key set of validType) and every built-in extractor package (imports of the two extractor list.go) and '
             'writes lean/Scalibr/Gen/Purl.lean with every purl type reachable from a ToPURL method (selectors and Type: fields in the method and the repository functions it calls). '
             'Kernel-checked: emitted types ⊆ accepted types; accepted table lower-case (declared-but-unemitted type constants are only probed at run time by `accept c`, informational); every extractor package accounted for (builds a purl / nil / data-determined); '
